@@ -104,10 +104,14 @@ type call struct {
 }
 
 type tcase struct {
-	s2s      bool
-	routines [][]*call // caller goroutines
-	handler  []*call   // calls executed as handler replies in the serve goroutine
-	yields   []int     // scheduler yields before the k-th transport write
+	s2s bool
+	// how the session came to be: "" ready-made, "initiated" / "received"
+	// through the library's default negotiator (a received session learns its
+	// own address from the peer's stream header)
+	negotiated string
+	routines   [][]*call // caller goroutines
+	handler    []*call   // calls executed as handler replies in the serve goroutine
+	yields     []int     // scheduler yields before the k-th transport write
 }
 
 func (tc tcase) all() []*call {
@@ -127,7 +131,7 @@ func (tc tcase) ns() string {
 
 func (tc tcase) String() string {
 	var sb strings.Builder
-	fmt.Fprintf(&sb, "s2s=%v yields=%v", tc.s2s, tc.yields)
+	fmt.Fprintf(&sb, "s2s=%v session=%q yields=%v", tc.s2s, tc.negotiated, tc.yields)
 	for g, r := range tc.routines {
 		fmt.Fprintf(&sb, "\n goroutine %d:", g)
 		for _, c := range r {
@@ -501,6 +505,7 @@ func genCall(t *rapid.T, idx int, ns, s2sFrom string, inHandler bool) *call {
 
 func genCase(t *rapid.T) tcase {
 	tc := tcase{s2s: rapid.Bool().Draw(t, "s2s")}
+	tc.negotiated = rapid.SampledFrom([]string{"", "", "initiated", "received"}).Draw(t, "negotiated")
 	ns := tc.ns()
 	s2sFrom := ""
 	if tc.s2s {
@@ -658,7 +663,7 @@ func check(t interface {
 		t.Helper()
 		ev.Failf(t, "%s\n%s", tc.String(), fmt.Sprintf(format, args...))
 	}
-	opts := wire.SessionOpts{}
+	opts := wire.SessionOpts{Negotiated: tc.negotiated}
 	if tc.s2s {
 		opts.State |= xmpp.S2S
 	}
@@ -886,6 +891,9 @@ func classify(tc tcase) (bool, []string) {
 				classes = append(classes, "id-generated")
 			}
 		}
+	}
+	if tc.negotiated != "" {
+		classes = append(classes, "session-negotiated-"+tc.negotiated)
 	}
 	if tc.s2s {
 		completion = true
